@@ -10,6 +10,18 @@ package types
 //@ func iface Type.Equal
 //@   ensures result == teq(self, u)
 
+//@ # (*PointerType).Equal compares printed strings. Under the stated assumption that printing is injective up to
+//@ # type identity (tstr/tstrInj in specs/llvm_types.spec; what the one-difference pairs of the stand-in sample),
+//@ # it must decide teq like every other implementation -- whatever fast path is put in front of the comparison.
+//@ func iface Type.String
+//@   ensures result == tstr(self)
+//@ func (*PointerType).String
+//@   trusted
+//@   ensures result == tstr(boxed(t))
+//@ func (*PointerType).Equal
+//@   props C16
+//@   requires t != nil && u != nil
+//@   ensures result == teq(boxed(t), u)
 //@ func (*VoidType).Equal
 //@   props C16
 //@   requires t != nil
